@@ -21,6 +21,7 @@ type Step struct {
 	Topic  string `json:"t,omitempty"`
 	Sender uint16 `json:"s,omitempty"`
 	ID     string `json:"id,omitempty"` // message id for R
+	N      int    `json:"n,omitempty"`  // burst size
 }
 
 type Scenario struct {
@@ -48,8 +49,9 @@ func (h *handler) HandleMessage(m *tss.IncMessage) {
 }
 
 type Result struct {
-	Handed   []string          // hand-over log (message ids)
-	Calls    map[string][2]int // message id -> (call index, return index) in the harness' own order
+	Handed   []string            // hand-over log (message ids)
+	Calls    map[string][2]int   // message id -> (call index, return index) in the harness' own order
+	Sends    map[string][][2]int // topic -> call intervals of the Send calls
 	Trace    []string
 	Deadlock bool
 	Unfin    []string
@@ -58,7 +60,7 @@ type Result struct {
 }
 
 func Run(c *harness.C, sc Scenario, r *explore.Recorder) *Result {
-	res := &Result{Calls: map[string][2]int{}, Pending: -1}
+	res := &Result{Calls: map[string][2]int{}, Sends: map[string][][2]int{}, Pending: -1}
 	var mu sync.Mutex
 	var handed []string
 	failedSub := false
@@ -81,7 +83,16 @@ func Run(c *harness.C, sc Scenario, r *explore.Recorder) *Result {
 				res.Calls[s.ID] = [2]int{a, b}
 				cmu.Unlock()
 			case "S":
+				a := stamp()
 				box.Send(uint8(tss.MsgTypeMPC), topicBytes(s.Topic), []byte("out"), 9)
+				b := stamp()
+				cmu.Lock()
+				res.Sends[s.Topic] = append(res.Sends[s.Topic], [2]int{a, b})
+				cmu.Unlock()
+			case "burst":
+				for i := 0; i < s.N; i++ {
+					box.HandleMessage(&tss.IncMessage{Data: []byte(fmt.Sprintf("%s#%d", s.ID, i)), Source: s.Sender, MsgType: uint8(tss.MsgTypeMPC), Topic: topicBytes(s.Topic)})
+				}
 			case "tick":
 				tick <- time.Time{}
 			}
@@ -197,6 +208,16 @@ func OracleCore(sc Scenario, res *Result, rp Replay, report func(clause, sig, de
 			}
 		}
 	}
+	// did a Send on the message's topic overlap its receive call? (the known check-then-act window)
+	racing := func(id, topic string) string {
+		c := res.Calls[id]
+		for _, iv := range res.Sends[topic] {
+			if iv[0] < c[1] && c[0] < iv[1] {
+				return "racing-send"
+			}
+		}
+		return "no-racing-send"
+	}
 	outcome := "ok"
 	for _, s := range recv {
 		switch {
@@ -206,7 +227,7 @@ func OracleCore(sc Scenario, res *Result, rp Replay, report func(clause, sig, de
 		case cnt[s.ID] == 0 && started[s.Topic]:
 			// the topic has started, everything is quiescent, and the message was not handed over:
 			// it sits in the buffer until some later Send on the topic (if any) - or is lost
-			bad("exactly-once", "c14-not-handed-over-after-start", fmt.Sprintf("message %s for started topic %s was not handed over (parked until a next send, or lost)", s.ID, s.Topic))
+			bad("exactly-once", "c14-not-handed-over-after-start:"+racing(s.ID, s.Topic), fmt.Sprintf("message %s for started topic %s was not handed over (parked until a next send, or lost)", s.ID, s.Topic))
 			outcome = "parked-or-lost"
 		}
 	}
@@ -218,7 +239,7 @@ func OracleCore(sc Scenario, res *Result, rp Replay, report func(clause, sig, de
 			}
 			ca, cb := res.Calls[a.ID], res.Calls[b.ID]
 			if ca[1] < cb[0] && pos[a.ID] > pos[b.ID] {
-				bad("arrival-order", "c14-reordered", fmt.Sprintf("message %s was received before %s (calls did not overlap) but handed over after it", a.ID, b.ID))
+				bad("arrival-order", "c14-reordered:"+racing(b.ID, b.Topic), fmt.Sprintf("message %s was received before %s (calls did not overlap) but handed over after it", a.ID, b.ID))
 				outcome = "reordered"
 			}
 		}
@@ -248,6 +269,9 @@ func Scenarios(thorough bool) []Scenario {
 		{Name: "s2-S;R", Threads: [][]Step{{S("X"), R("m1", "X", 1)}}, Bound: 0},
 		{Name: "s3-R;R;S;R", Threads: [][]Step{{R("m1", "X", 1), R("m2", "X", 1), S("X"), R("m3", "X", 1)}}, Bound: 0},
 		{Name: "s4-R;R2;Sother;S;S", Threads: [][]Step{{R("m1", "X", 1), R("m2", "X", 2), S("Y"), S("X"), S("X")}}, Bound: 0},
+		{Name: "s6-burst101;Rother;S", Threads: [][]Step{{{Kind: "burst", ID: "b", Topic: "X", Sender: 1, N: 101}, R("m1", "X", 2), R("m2", "X", 2), S("X")}}, Bound: 0},
+		{Name: "s7-burst99;R;R;S", Threads: [][]Step{{{Kind: "burst", ID: "b", Topic: "X", Sender: 1, N: 99}, R("m1", "X", 1), R("m2", "X", 2), S("X")}}, Bound: 0},
+		{Name: "14-Rnew||Rnew;S", Threads: [][]Step{{R("m1", "X", 1)}, {R("m2", "X", 2), S("X")}}, Bound: 100},
 		{Name: "s5-tick-R;S", Pre: []Step{{Kind: "tick"}}, Threads: [][]Step{{R("m1", "X", 1), S("X")}}, Bound: 0},
 		{Name: "13-Rnew||Sother", Threads: [][]Step{{R("m1", "Z", 1)}, {S("X")}}, Bound: 100},
 		{Name: "10-gc-stored-R||Sother", Pre: []Step{R("m0", "Z", 1)}, Threads: [][]Step{{R("m1", "Z", 1)}, {S("X")}}, Bound: 100},
